@@ -94,6 +94,7 @@ def gemini(tier, seed, modes=("C01", "C02")):
                     continue
                 for mode in modes:
                     out.append(Evaluate(cls, ovo, n, K, mode, "interior"))
+            # (more than 64 clusters: contracts/gemini_large.py, against a vectorised reference -- the index-explicit spec takes 10 s per score there)
     return out
 
 
@@ -162,6 +163,8 @@ def invariance(tier, seed, whats=("perm-rows", "perm-cols", "indep", "onehot", "
                     continue
                 for w in whats:
                     out.append(Invariance(cls, ovo, n, K, w))
+            if "onehot" in whats and cls != "WassersteinGEMINI":
+                out.append(Invariance(cls, ovo, 70, 70, "onehot"))          # as many clusters as samples, more than 64 of them
     return out
 
 
